@@ -592,7 +592,7 @@ func runC04(args []string) error {
 			for k := int64(0); k == 0 || k <= total+1; k++ {
 				seconds := []int64{0}
 				if k > 0 {
-					if rf.Tier == "thorough" {
+					if rf.Tier == "thorough" && len(log) > 3 { // (the log with the 9 MiB batch runs without second crashes: memory)
 						seconds = []int64{0, 1, 2, 3, 4, 5, 6, 8, 10, 13}
 					} else if k%3 == 0 {
 						seconds = []int64{0, 1 + k%7}
